@@ -29,11 +29,12 @@ RULE = ('contents = any subset of the nine signatures (+ FAT look-alike) overlai
         'short files; x allowed_formats (None, singletons, all-but-raw, random subsets) x read-size sequences; the '
         'decision is sampled after every read. non-trivial = at least one signature present or a text/short file; '
         'distinct by (content digest, allowed set, read schedule)')
-REQUIRED_CLAUSES = ['interleaved-wrappers', 'zero-length-reads-are-neutral', 'formats-equal-signatures', 'format-decision', 'no-revision', 'only-ImageFormatError',
+REQUIRED_CLAUSES = ['under-warnings-as-errors', 'allowed-respected-with-expected_format', 'interleaved-wrappers', 'zero-length-reads-are-neutral', 'formats-equal-signatures', 'format-decision', 'no-revision', 'only-ImageFormatError',
                     'raw-exclusive', 'detect_file_format', 'fd-balance']
 ASSUMPTIONS = ['signature predicates written from the property text and the layout comments, sharing no code with the inspectors',
                'F1: for text-like content the VMDK text-descriptor match is chunk dependent; vmdk in formats is DONT-CARE '
                'there when the content contains createType=", and must be absent when it does not']
+INTERPRETER_FLAGS = [[], ['-O'], [], ['-bb']]
 SHARDS = {'quick': 8, 'thorough': 16}
 MIN_DISTINCT = {'quick': 1500, 'thorough': 20000}
 LEVEL_TEXT = ('Exploration with an independent signature oracle: all 2^9 signature subsets are overlaid on three '
@@ -190,6 +191,42 @@ def eval_detect(ctx, case):
         ctx.fail('detect_file_format', case, {'got': got, 'want': oks, 'signatures': sorted(S)})
 
 
+def eval_expected(ctx, case):
+    """allowed_formats together with expected_format (inside or outside the allowed set): whatever else happens - the
+    expected-format cut-off may end the read early with ImageFormatError - nothing outside allowed_formats is ever named
+    and nothing but ImageFormatError comes out."""
+    F = sl.fi()
+    content = build_content(case)
+    allowed, expected = case['allowed'], case['expected']
+    ctx.case(('expected', content, tuple(allowed), expected, tuple(case['cuts'])), nontrivial=bool(ig.sigs(content)))
+    try:
+        res = sl.feed_wrapper(content, case['cuts'], allowed=allowed, expected=expected, monitor=False)
+    except BaseException as e:  # noqa  (constructor refused the combination)
+        ctx.clause('allowed-respected-with-expected_format')
+        if not isinstance(e, (F.ImageFormatError, ValueError)):
+            ctx.fail('only-ImageFormatError', case, {'where': 'constructor', 'exc': e})
+        return
+    ctx.clause('allowed-respected-with-expected_format')
+    ctx.h('expected inside allowed', str(expected in allowed))
+    if res['exc'] is not None and not isinstance(res['exc'], F.ImageFormatError):
+        ctx.fail('only-ImageFormatError', case, {'where': 'read', 'exc': res['exc']})
+    named = set()
+    for d in res['decisions'] + [res['final']]:
+        if isinstance(d, str) and d.startswith('EXC:'):
+            ctx.fail('only-ImageFormatError', case, {'where': 'format', 'decision': d})
+        elif d not in (None, 'IFE'):
+            named.add(d)
+    if isinstance(res['formats'], list):
+        named |= set(res['formats'])
+    elif res['formats'] != 'EXC:ImageFormatError':
+        ctx.fail('only-ImageFormatError', case, {'where': 'formats', 'formats': res['formats']})
+    considered = {i.NAME for i in res['wrapper']._inspectors}
+    if not named <= set(allowed) or not considered <= set(allowed):
+        ctx.fail('allowed-respected-with-expected_format', case,
+                 {'named': sorted(named), 'inspectors_created': sorted(considered), 'allowed': allowed,
+                  'expected': expected})
+
+
 def eval_interleaved(ctx, case):
     """Two wrappers alive at once, read alternately; each one's decision is the decision of its own content, and a
     decision already handed out by the first is the same when asked again after the second has been read and closed."""
@@ -221,10 +258,22 @@ def eval_interleaved(ctx, case):
 
 
 def evaluate(ctx, case):
+    from vlib import envmodes
+    if envmodes.lazy_for(case, share=4):
+        # the caller runs with warnings turned into errors (python -W error): still nothing but ImageFormatError
+        ctx.clause('under-warnings-as-errors')
+        with envmodes.warnings_as_errors():
+            return _evaluate(ctx, case)
+    return _evaluate(ctx, case)
+
+
+def _evaluate(ctx, case):
     if case.get('kind') == 'detect':
         eval_detect(ctx, case)
     elif case.get('kind') == 'interleaved':
         eval_interleaved(ctx, case)
+    elif case.get('kind') == 'expected':
+        eval_expected(ctx, case)
     else:
         eval_case(ctx, case)
 
@@ -369,6 +418,30 @@ def run(ctx):
         data, _t = ig.build(spec)
         emit({'spec': spec, 'allowed': allowed_pool(rng5) if rng5.random() < 0.4 else None,
               'cuts': cuts_for(rng5, len(data))}, 'valid-image-polyglot')
+    # sparse VMDK headers announcing a footer (grain directory "at end") on streams of every short length: what the
+    # end-of-stream handling does with a footer that is not there, through close() and detect_file_format
+    rng8 = ctx.rng('short-footer-vmdk')
+    for L in [64, 65, 76, 77, 100, 200, 511, 512, 513, 574, 575, 576, 577, 600, 1024, 1535, 1536, 1537, 1599, 1600, 2047, 2048, 2100, 4096]:
+        for ver in (1, 2, 3, 0, 4):
+            for dn in (1, 2, 0):
+                spec = {'gen': 'vmdk', 'params': {'footer': True, 'ver': ver, 'desc_num': dn, 'min_total': 0, 'total': L}}
+                emit({'spec': spec, 'allowed': rng8.choice([None, None, ['vmdk', 'raw'], ['vmdk']]),
+                      'cuts': cuts_for(rng8, L)}, 'short-footer-vmdk')
+                if ver == 1 and dn == 1:
+                    emit({'kind': 'detect', 'spec': spec}, 'short-footer-vmdk')
+    # allowed_formats x expected_format
+    rng7 = ctx.rng('expected')
+    for i in range(ctx.pick(600, 30000)):
+        allowed = sorted(rng7.sample(NAMES, rng7.randrange(1, 5)))
+        expected = rng7.choice(NAMES) if rng7.random() < 0.7 else rng7.choice(allowed)
+        if rng7.random() < 0.5:
+            c = {'spec': ic.wellformed(rng7, rng7.choice([expected if expected in ic.FORMATS else 'qcow2', rng7.choice(ic.FORMATS)]))}
+            L = len(ig.build(c['spec'])[0])
+        else:
+            L = rng7.choice([512, 600, 4096, 40000])
+            c = {'length': L, 'bg': rng7.choice(['zero', 'random', 'text']), 'seed': rng7.getrandbits(16),
+                 'sigs': [expected] if expected in SIGNAMES and rng7.random() < 0.7 else [rng7.choice(SIGNAMES)]}
+        emit(dict(c, kind='expected', allowed=allowed, expected=expected, cuts=cuts_for(rng7, L)), 'allowed-x-expected')
     # two wrappers alive at the same time
     rng6 = ctx.rng('interleaved')
     for i in range(ctx.pick(150, 5000)):
